@@ -2,6 +2,7 @@ package crl
 
 import (
 	"encoding/json"
+	"fmt"
 	"time"
 
 	"github.com/zmap/zcrypto/encoding/asn1"
@@ -109,11 +110,16 @@ type RevokedCertExtensionData struct {
 	invalidityDate time.Time
 }
 
-func gatherListExtensionInfo(certList *pkix.CertificateList, ret *RevocationData) {
+func gatherListExtensionInfo(certList *pkix.CertificateList, ret *RevocationData) error {
 	for _, extension := range certList.TBSCertList.Extensions {
 		if extension.Id.Equal(crlNumberExtensionOID) {
 			var ext crlNumberExtension
-			asn1.Unmarshal(extension.Value, &ext.CRLNumber)
+			// ListExtensionData.CRLNumber is an int: a CRL number that cannot
+			// be decoded into it (RFC 5280 allows up to 20 octets) must not be
+			// reported as 0.
+			if _, err := asn1.Unmarshal(extension.Value, &ext.CRLNumber); err != nil {
+				return fmt.Errorf("crl: cannot represent the CRL number: %v", err)
+			}
 			ret.CRLExtensions.CRLNumber = ext.CRLNumber
 		} else if extension.Critical {
 			ret.UnknownCriticalCRLExtensions = append(ret.UnknownCriticalCRLExtensions, extension)
@@ -121,6 +127,7 @@ func gatherListExtensionInfo(certList *pkix.CertificateList, ret *RevocationData
 			ret.UnknownCRLExtensions = append(ret.UnknownCRLExtensions, extension)
 		}
 	}
+	return nil
 }
 
 // CheckCRLForCert - parses through a given CRL and to see if a given certificate
@@ -136,7 +143,9 @@ func CheckCRLForCert(certList *pkix.CertificateList, cert *x509.Certificate, cac
 	}
 	ret.Issuer.FillFromRDNSequence(&certList.TBSCertList.Issuer)
 
-	gatherListExtensionInfo(certList, ret)
+	if err := gatherListExtensionInfo(certList, ret); err != nil {
+		return nil, err
+	}
 
 	if cache != nil {
 		if val, ok := cache[cert.SerialNumber.String()]; ok {
